@@ -7,6 +7,7 @@ package main
 import (
 	"go/ast"
 	"go/token"
+	"go/types"
 	"sort"
 	"strings"
 
@@ -300,4 +301,79 @@ func assignedIdents(n ast.Node) []*ast.Ident {
 		return true
 	})
 	return out
+}
+
+// errCorr: path correlation between "an error variable was just set to a known non-nil value" and a later
+// `err == nil` edge: on such an edge the path is infeasible, so path facts with the given prefix are dropped.
+type errCorr struct {
+	p      *Prog
+	fn     *Fn
+	prefix string
+}
+
+func (ec errCorr) node(n ast.Node, f Facts) {
+	walkNoLit(n, func(nd ast.Node) bool {
+		as, ok := nd.(*ast.AssignStmt)
+		if !ok {
+			return true
+		}
+		for i, l := range as.Lhs {
+			id, ok := ast.Unparen(l).(*ast.Ident)
+			if !ok {
+				continue
+			}
+			o := ec.p.ObjOf(ec.fn, id)
+			if o == nil || !isErrorType(o.Type()) {
+				continue
+			}
+			var rhs ast.Expr
+			if len(as.Rhs) == len(as.Lhs) {
+				rhs = as.Rhs[i]
+			}
+			if rhs != nil && knownNonNilErr(ec.p, ec.fn, rhs) {
+				f["errset|"+ec.p.ID(o)] = true
+			} else {
+				delete(f, "errset|"+ec.p.ID(o))
+			}
+		}
+		return true
+	})
+}
+
+func (ec errCorr) edge(cond ast.Expr, taken bool, f Facts) {
+	for _, a := range splitCond(cond, taken) {
+		if x, isNil, ok := nilTest(a); ok && isNil {
+			if id, ok := ast.Unparen(x).(*ast.Ident); ok {
+				if o := ec.p.ObjOf(ec.fn, id); o != nil && f["errset|"+ec.p.ID(o)] {
+					f.DelPrefix(ec.prefix) // this edge cannot be taken on the paths that set the error
+				}
+			}
+		}
+	}
+}
+
+// knownNonNilErr: a package-level error value/constant, or a Wrap/Errorf/New call.
+func knownNonNilErr(p *Prog, fn *Fn, e ast.Expr) bool {
+	e = ast.Unparen(e)
+	switch x := e.(type) {
+	case *ast.SelectorExpr:
+		switch o := p.ObjOf(fn, x.Sel).(type) {
+		case *types.Var:
+			return !o.IsField() && o.Parent() == o.Pkg().Scope()
+		case *types.Const:
+			return true
+		}
+	case *ast.Ident:
+		switch o := p.ObjOf(fn, x).(type) {
+		case *types.Var:
+			return !o.IsField() && o.Pkg() != nil && o.Parent() == o.Pkg().Scope() && isErrorType(o.Type())
+		case *types.Const:
+			return true
+		}
+	case *ast.CallExpr:
+		if se, ok := ast.Unparen(x.Fun).(*ast.SelectorExpr); ok && (se.Sel.Name == "Wrap" || se.Sel.Name == "Errorf" || se.Sel.Name == "New") {
+			return true
+		}
+	}
+	return false
 }
